@@ -36,7 +36,14 @@ THEOREMS = [
     "JanetModel.Props.C08.exactly_once_partial",
     "JanetModel.Props.C08.exactly_once_counterexample",
     "JanetModel.Props.C08.per_sender_order_partial",
+    "JanetModel.Props.C08.per_sender_order",
+    "JanetModel.Props.C08.got_in_send_order",
+    "JanetModel.Props.C08.no_abandon_no_stale_no_drop",
     "JanetModel.Props.C08.per_sender_order_counterexample",
+    "JanetModel.Props.C08.per_thread_order_counterexample",
+    "JanetModel.Props.C08.exactly_once_resumed",
+    "JanetModel.Props.C08.exactly_once_resumed_clean",
+    "JanetModel.Props.C08.scheduled_then_abandoned_counterexample",
     "JanetModel.Props.C08.writer_wakeup_forwarded",
     "JanetModel.Props.C08.writer_wakeup_accepted",
     "JanetModel.Props.C08.writer_wakeup_counterexample",
@@ -50,6 +57,9 @@ THEOREMS = [
 CURRENT = [
     "JanetModel.Thread.Current.exactly_once_current",
     "JanetModel.Thread.Current.forward_own_sched_id",
+    "JanetModel.Thread.Current.runqueue_shape",
+    "JanetModel.Thread.Current.per_sender_order_current",
+    "JanetModel.Thread.Current.exactly_once_resumed_current",
     "JanetModel.Thread.Current.thread_returns_after_body_current",
     "JanetModel.Thread.Current.refcount_ge_reachers_current",
 ]
@@ -218,6 +228,12 @@ def run(ctx, only_replay=None):
             bad = topo.oracle(scn, res)
         except Exception as e:  # output of the implementation that the oracle cannot interpret is a failure of the run, not of the check
             bad = [("malformed-receipt", "the logs of this run could not be interpreted (%r): the implementation produced values of an unexpected shape" % (e,))]
+        # a run killed by the process timeout while it was still computing (no `stall` line of the watchdog, substantial CPU
+        # time) is SLOW, not stuck: its missing messages are no verdict (the machine may be heavily loaded)
+        if res["rc"] is None and not any(l.startswith("stall") for l in res["logs"].get("main", [])) \
+                and res.get("cpu_s") is not None and res["cpu_s"] >= 0.1 * res["timeout"]:
+            bad = [b for b in bad if b[0] not in ("lost", "lost-stale-reader", "stuck")]
+            res["inconclusive"] = True
         for kind, fn in san_reports(res["stderr"]):
             bad.append((san_sig(kind, fn), "sanitizer report %s in %s" % (kind, fn)))
         return job, res, bad
@@ -330,6 +346,7 @@ def run(ctx, only_replay=None):
                 "op sequences = random single-loop histories compared step by step with the Lean model",
         "samples": [topo.describe(j[2]) for j, r, b in results[:3]] + [" ".join(seqs[0])[:200] if seqs else ""],
         "topology_runs": {vn: sum(1 for j, r, b in results if j[0] == vn and r is not None) for vn in ("plain", "asan", "tsan", "asan_gc")},
+        "inconclusive_slow_runs": sum(1 for j, r, b in results if r is not None and r.get("inconclusive")),
         "perturbed_runs": sum(1 for j, r, b in results if j[3] and shim and j[0] == "plain"),
         "messages_checked": sum(topo.describe(j[2])["messages"] for j, r, b in results if r is not None),
         "feature_counts": dict(sorted(cov_feat.items())),
